@@ -135,6 +135,17 @@ pub const DEVIATIONS: &[Dev] = &[
         variants(f, "Shape").push(Variant::new("Return", VKind::Unit));
         variants(f, "Shape").push(Variant::new("Import", VKind::Struct(vec![Field::new("x", Ty::Prim("u32"))])));
     }),
+    // identifiers that are legal in Rust only thanks to a leading underscore
+    ("variant-underscore-digit-names", |f, _| {
+        variants(f, "Color").push(Variant::new("_2D", VKind::Unit));
+        variants(f, "Shape").push(Variant::new("_3D", VKind::Newtype(Ty::Prim("bool"))));
+        variants(f, "Shape").push(Variant::new("_0", VKind::Unit));
+        variants(f, "Shape").push(Variant::new("_404", VKind::Struct(vec![Field::new("x", Ty::Prim("u32"))])));
+    }),
+    ("field-underscore-digit-names", |f, _| {
+        fields(f, "Person").push(Field::new("_1", Ty::Prim("u32")));
+        rect_fields(f).push(Field::new("_2nd", Ty::Prim("bool")));
+    }),
     ("type-keyword-names", |f, _| {
         f.items.push(Item::strukt("Protocol", vec![Field::new("x", Ty::Prim("u32"))]));
         f.items.push(Item::enumm("Type", vec![Variant::new("One", VKind::Unit)]));
